@@ -17,6 +17,7 @@ Qed.
 
 Section Dec.
 Variable fin_b : f64 -> bool.
+Variable allow_null : bool.
 Variable OR : oracles.
 Definition finP (f : f64) : Prop := fin_b f = true.
 
@@ -33,6 +34,7 @@ Fixpoint jd_b (fuel : nat) (v : goval) : bool :=
   | O => false
   | S f =>
       match v with
+      | VNil => allow_null
       | VBool _ | VStr _ => true
       | VFlt is32 x => negb is32 && fin_b x
       | VArr _ l => forallb (jd_b f) l
@@ -41,9 +43,9 @@ Fixpoint jd_b (fuel : nat) (v : goval) : bool :=
       end
   end.
 
-Lemma jd_b_sound : forall fuel v, jd_b fuel v = true -> jd finP v.
+Lemma jd_b_sound : forall fuel v, jd_b fuel v = true -> jd finP allow_null v.
 Proof.
-  induction fuel as [|f IH]; intros v H; [discriminate|]. destruct v as [| | |is32 x| | |id l| |id m]; cbn [jd_b] in H; try discriminate; try exact I.
+  induction fuel as [|f IH]; intros v H; [discriminate|]. destruct v as [| | |is32 x| | |id l| |id m]; cbn [jd_b] in H; try discriminate; try exact I; try exact H.
   - apply andb_true_iff in H. destruct H as [H1 H2]. apply negb_true_iff in H1. cbn [jd]. split; assumption.
   - apply jd_arr. apply Forall_forall. intros x Hx. apply IH. apply (proj1 (forallb_forall _ _) H x Hx).
   - apply andb_true_iff in H. destruct H as [H1 H2]. apply jd_obj. split; [|apply nodup_b_sound; exact H2].
@@ -86,6 +88,7 @@ Definition is_none {A} (o : option A) : bool := match o with None => true | Some
 Definition is_nil_b {A} (l : list A) : bool := match l with [] => true | _ => false end.
 
 Definition local_clean_b (s : schema) : bool :=
+  (negb allow_null || (is_nil_b (s_all_of s) && is_nil_b (s_any_of s) && is_none (s_not s))) &&
   is_none (s_ref s) && Z.eqb (s_format s) 0 && negb (s_nullable s) &&
   forallb (fun e => jd_b (S (goval_depth e)) e) (s_enum s) &&
   (Z.eqb (s_pattern s) 0 || o_re_ok OR (s_pattern s)) &&
@@ -101,11 +104,15 @@ Definition local_clean_b (s : schema) : bool :=
   (* numbers *)
   (match s_maximum s with Some m => fin_b m | None => true end) && (match s_minimum s with Some m => fin_b m | None => true end).
 
-Lemma local_clean_b_sound s : local_clean_b s = true -> local_clean finP OR s.
+Lemma local_clean_b_sound s : local_clean_b s = true -> local_clean finP allow_null OR s.
 Proof.
   intros H. unfold local_clean_b in H. repeat (apply andb_true_iff in H; let H' := fresh "L" in destruct H as [H H']).
-  unfold local_clean, array_clean, object_clean, comp_clean, bounds_fin.
-  split; [revert H; destruct (s_ref s); [discriminate | reflexivity]|].
+  unfold local_clean, array_clean, object_clean, comp_clean, bounds_fin, nullsafe.
+  split.
+  { intros Hn. rewrite Hn in H. cbn [negb orb] in H. apply andb_true_iff in H. destruct H as [H Hc]. apply andb_true_iff in H. destruct H as [Ha Hb].
+    split; [revert Ha; destruct (s_all_of s); [reflexivity | discriminate]|].
+    split; [revert Hb; destruct (s_any_of s); [reflexivity | discriminate] | revert Hc; destruct (s_not s); [discriminate | reflexivity]]. }
+  split; [revert L15; destruct (s_ref s); [discriminate | reflexivity]|].
   split; [apply Z.eqb_eq; exact L14|].
   split; [apply negb_true_iff; exact L13|].
   split; [apply (forallb_Forall _ _ _ (fun e He => jd_b_sound _ e He) L12)|].
@@ -131,10 +138,10 @@ Fixpoint clean_b (n : nat) (s : schema) {struct n} : bool :=
   | S m => local_clean_b s && kids_b (clean_b m) s
   end.
 
-Theorem clean_b_sound : forall n s, clean_b n s = true -> clean finP OR n s.
+Theorem clean_b_sound : forall n s, clean_b n s = true -> clean finP allow_null OR n s.
 Proof.
   induction n as [|n IH]; intros s H; [discriminate|]. cbn [clean_b] in H. apply andb_true_iff in H. destruct H as [H1 H2].
-  split; [apply local_clean_b_sound; exact H1 | apply (kids_b_sound (clean_b n) (clean finP OR n) s IH H2)].
+  split; [apply local_clean_b_sound; exact H1 | apply (kids_b_sound (clean_b n) (clean finP allow_null OR n) s IH H2)].
 Qed.
 
 End Dec.
